@@ -26,10 +26,12 @@ ASSUMPTIONS = ['"secret" is matched as a lower-case substring of the resource na
                'visible-control expectations are dropped for a host that contains a resource whose repr raises (the whole section is then reported as failed inline)']
 REQUIRED_REACH = ['secret-resources-rendered', 'redaction-marker-seen:html', 'redaction-marker-seen:json', 'visible-control-seen:html',
                   'visible-control-seen:json', 'json-view-parsed', 'cookie-key-hosts', 'depth:2', 'name:prefix', 'name:infix', 'name:suffix',
-                  'value:bytes', 'value:number', 'value:nested', 'value:object-repr', 'value:bad-repr', 'inline-section-failure-seen', 'host-context-processor']
+                  'value:bytes', 'value:rawbytes', 'value:number', 'value:nested', 'value:object-repr', 'value:bad-repr', 'inline-section-failure-seen', 'host-context-processor', 'route:render-arg-object']
 NSHARDS = 16
-SECRET_NAMES = {'prefix': ['secret_key', 'secret-token', 'secretX'], 'infix': ['db_secret_url', 'mysecrets', 'x_secret_y'],
-                'suffix': ['api_secret', 'cookiesecret', 'the.secret'], 'whole': ['secret']}
+SECRET_NAMES = {'prefix': ['secret_key', 'secret-token', 'secretX', 'secret_' + 'x' * 60],
+                'infix': ['db_secret_url', 'mysecrets', 'x_secret_y', 'very_long_configuration_option_name_secret_value_for_production'],
+                'suffix': ['api_secret', 'cookiesecret', 'the.secret', 'payment_gateway_production_signing_secret', 'k' * 70 + 'secret'],
+                'whole': ['secret']}
 PLAIN_NAMES = ['db_url', 'name', 'config', 'SECRET_upper', 'sekret', 'token', 'n', 'cache', 'items', 'secre', 'ecret']
 
 
@@ -51,6 +53,8 @@ def make_value(kind, sentinel):
         return sentinel
     if kind == 'bytes':
         return sentinel.encode('ascii')
+    if kind == 'rawbytes':         # not valid UTF-8, like an os.urandom() key
+        return b'\xff\xfe' + sentinel.encode('ascii') + b'\x80\xc3'
     if kind == 'number':
         return int(sentinel)
     if kind == 'nested':
@@ -80,10 +84,10 @@ def gen_host(rng, n):
         if name in used:
             continue
         used.add(name)
-        kind = rng.pick(['str', 'str', 'bytes', 'number', 'nested', 'object-repr'] + (['bad-repr'] if rng.chance(0.15) else []))
+        kind = rng.pick(['str', 'str', 'bytes', 'rawbytes', 'number', 'nested', 'object-repr'] + (['bad-repr'] if rng.chance(0.15) else []))
         res.append({'name': name, 'secret': secret, 'pos': pos, 'kind': kind, 'sentinel': sentinel(kind)})
     routes = [rng.pick(['func', 'lambda', 'method', 'callable', 'static', 'classm', 'decorated', 'reroute', 'staticfile', 'staticapp',
-                        'subapp', 'render-arg', 'partial-render', 'methods'])
+                        'subapp', 'render-arg', 'render-arg-object', 'partial-render', 'methods'])
               for _ in range(rng.randint(1, 8))]
     mws = [rng.pick(['cookie', 'cookie', 'stats', 'gzip', 'hostile-repr', 'getparam']) for _ in range(rng.randint(0, 3))]
     mws = [m for i, m in enumerate(mws) if i == mws.index(m)]      # one instance per kind (two would offer the same name)
@@ -168,6 +172,10 @@ def build_host(host):
             routes.append((p, Application([Route('/in', func), Route('/in/<y:int>', lambda y: Response(str(y)))])))
         elif kind == 'render-arg':
             routes.append(Route(p, lambda: {'a': 1}, 'some_template.html' if host['factory'] else (lambda context: Response('r'))))
+        elif kind == 'render-arg-object':
+            # a render argument that is neither a callable nor a string (for a render factory to interpret)
+            arg = [ReprCarrier('tmpl'), ('name.html', 2), {'template': ReprCarrier('t')}, b'raw.html', 7][i % 5]
+            routes.append(Route(p, lambda: {'a': 1}, arg if host['factory'] else (lambda context: Response('r'))))
         elif kind == 'partial-render':
             routes.append(Route(p, lambda: {'a': 1}, K()))
         else:
@@ -249,6 +257,8 @@ def judge(sh, host, record=True):
         sh.hit('cookie-key-hosts')
     if host.get('ctxproc'):
         sh.hit('host-context-processor')
+    if 'render-arg-object' in host['routes'] and host['factory']:
+        sh.hit('route:render-arg-object')
     for r in host['resources']:
         if r['secret']:
             sh.hit('name:' + r['pos'])
